@@ -459,6 +459,9 @@ def signature(op, res, verdict):
         precision_mode = w[0] in ("fixed", "exp", "prec") or (w[0] == "ftostr" and w[2] in ("2", "3", "4"))
         if precision_mode and e == 0 and m != 0:
             return "precision-modes:subnormal-input:wrong-digits-or-hang"
+        shortest_mode = w[0] in ("tostr", "expu", "rt") or (w[0] == "ftostr" and w[2] in ("0", "1")) or (w[0] == "radix" and w[2] == "10")
+        if shortest_mode and e == 0 and m != 0:
+            return "shortest-mode:subnormal-input:bignum-fallback-wrong-digits"
         if precision_mode and neg and res.startswith("."):
             return "precision-modes:negative-input:carry-into-sign"
         if w[0] in ("radix", "fbase") and neg and e < 1023 and why == "sign" and not res.startswith("-"):
